@@ -109,14 +109,17 @@ def _refs(v):
             yield from _refs(i)
 
 
-def merge_states(states, roots_of=None):
-    """Merge states that are equal except for facts (facts are intersected)."""
+def merge_states(states, roots_of=None, guard_pred=None):
+    """Merge states that are equal except for facts (facts are intersected).
+    Facts selected by `guard_pred` are part of the identity (never merged away)."""
     out = {}
     order = []
     for item in states:
         st = item[0] if isinstance(item, tuple) else item
         extra = item[1:] if isinstance(item, tuple) else ()
         k = (st.key(), tuple(vkey(e) if hasattr(e, "key") else e for e in extra))
+        if guard_pred is not None:
+            k = k + (tuple(sorted(((f, b) for f, b in st.facts.items() if guard_pred(f)), key=repr)),)
         if k in out:
             prev = out[k]
             pst = prev[0] if isinstance(prev, tuple) else prev
